@@ -4,7 +4,7 @@ import json, os
 R = json.load(open(os.path.join(os.path.dirname(os.path.abspath(__file__)), "results.json")))
 rows = []
 stats = {"caught": 0, "elsewhere": 0, "missed": 0, "quiet": 0, "false": 0}
-for label in sorted(R, key=lambda k: (not k.startswith("C"), k)):
+for label in sorted(R, key=lambda k: (0 if k.startswith("C") else 1 if k.startswith("own-") else 2, k)):
     r = R[label]
     fired = {k: v["kind"] for k, v in r["fired"].items()}
     exp = r.get("expected", [])
@@ -12,6 +12,7 @@ for label in sorted(R, key=lambda k: (not k.startswith("C"), k)):
     nofi = sorted(k for k, v in fired.items() if v != "concrete")
     if not exp:
         st = "quiet (as required)" if not fired else "**FALSE ALARM**"
+        exp_txt = "none (independent refactoring)" if label.startswith("ref-") else "none (harmless rewrite)"
         stats["quiet" if not fired else "false"] += 1
     elif any(e in fired for e in exp):
         st = "caught"
@@ -24,7 +25,7 @@ for label in sorted(R, key=lambda k: (not k.startswith("C"), k)):
         stats["missed"] += 1
     t = r.get("tests") or {}
     tr = ",".join((r.get("translator") or {}).get("failed", [])) or "-"
-    rows.append("| %s | %s | %s | %s | %s | %s | %s | %s |" % (label, ",".join(exp) or "none (harmless rewrite)", (r.get("what") or "").replace("|", "/")[:150], "%s/51" % t.get("passed"), st, " ".join(conc) or "-", " ".join(nofi) or "-", tr))
+    rows.append("| %s | %s | %s | %s | %s | %s | %s | %s |" % (label, ",".join(exp) or exp_txt, (r.get("what") or "").replace("|", "/")[:150], "%s/51" % t.get("passed"), st, " ".join(conc) or "-", " ".join(nofi) or "-", tr))
 print("| change | breaks | what | repo tests | verdict | checks with a concrete failing input | checks reporting no-failing-input-found | source-tie theorems broken (translator) |")
 print("|---|---|---|---|---|---|---|---|")
 print("\n".join(rows))
